@@ -202,3 +202,182 @@ pub proof fn lemma_g_mono(lm: bool, pt: real, pt2: real, us: real)
         assert(us * hx <= us * hy) by(nonlinear_arith) requires us > 0real, hx <= hy;
     }
 }
+
+// ------------------------------------------------------------------------------------------------ C12: with vs without load matching
+/// C12 (comparison sentence) for one carrier: the same components evaluated with and without load matching - at every step the produced
+/// energy used on site with load matching is at most the one without, the grid delivery at least; the same for the annual figures
+pub proof fn thm_c12_lm(a: Run, b: Run)
+    requires run_ok(a, true), run_ok(b, false), a.cs == b.cs, nonneg_list(a.cs), wf_list(a.cs, run_n(a) as nat), same_carrier(a.cs, e_carrier(a.cs[0])),
+    ensures run_n(a) == run_n(b),
+            forall|i: int| 0 <= i < run_n(a) ==> rv(#[trigger] a.prod.epus_t@[i]) <= rv(b.prod.epus_t@[i]) && rv(a.del.grid_t@[i]) >= rv(b.del.grid_t@[i]),
+            rv(a.prod.epus_an) <= rv(b.prod.epus_an), rv(a.del.grid_an) >= rv(b.del.grid_an),
+{
+    assert(run_n(a) == run_n(b));
+    assert forall|i: int| 0 <= i < run_n(a) implies rv(#[trigger] a.prod.epus_t@[i]) <= rv(b.prod.epus_t@[i]) && rv(a.del.grid_t@[i]) >= rv(b.del.grid_t@[i]) by {
+        lemma_epus_is_g(a, true, i); lemma_epus_is_g(b, false, i);
+        assert(rv(a.used.epus_t@[i]) == acc(a.cs, Sel::Epus, i) && rv(b.used.epus_t@[i]) == acc(b.cs, Sel::Epus, i));
+        lemma_same_prod_t(a, b, i);
+        lemma_g_lm(rv(a.prod.t@[i]), rv(a.used.epus_t@[i]));
+    }
+    lemma_sumf_le(a.prod.epus_t@, b.prod.epus_t@);
+    lemma_sumf_le(b.del.grid_t@, a.del.grid_t@);
+}
+/// same component list => same production by source and in total, in both evaluations
+pub proof fn lemma_same_prod_t(a: Run, b: Run, i: int)
+    requires cup_post(a.cs, true, a.used, a.prod, a.fm), cup_post(b.cs, false, b.used, b.prod, b.fm), a.cs == b.cs, 0 <= i < run_n(a), run_n(a) == run_n(b),
+    ensures rv(a.prod.t@[i]) == rv(b.prod.t@[i]),
+{
+    let m = a.prod.by_src_t@; let m2 = b.prod.by_src_t@;
+    assert forall|s: ProdSource| #[trigger] mv(m, s, i) == mv(m2, s, i) by {
+        assert(m.contains_key(s) == any_sel(a.cs, Sel::Prod(s)) && m2.contains_key(s) == any_sel(b.cs, Sel::Prod(s)));
+        if m.contains_key(s) { assert(rv(m[s]@[i]) == acc(a.cs, Sel::Prod(s), i)); assert(rv(m2[s]@[i]) == acc(b.cs, Sel::Prod(s), i)); }
+    }
+    assert(rv(a.prod.t@[i]) == all_src_sum(m, i) && rv(b.prod.t@[i]) == all_src_sum(m2, i));
+    assert(mv(m, ProdSource::EL_INSITU, i) == mv(m2, ProdSource::EL_INSITU, i) && mv(m, ProdSource::EL_COGEN, i) == mv(m2, ProdSource::EL_COGEN, i)
+        && mv(m, ProdSource::TERMOSOLAR, i) == mv(m2, ProdSource::TERMOSOLAR, i) && mv(m, ProdSource::EAMBIENTE, i) == mv(m2, ProdSource::EAMBIENTE, i));
+}
+
+// ------------------------------------------------------------------------------------------------ C14: grid-delivered energy
+/// the second component list has, step by step, the same EPB use and at least the production of the first, source by source
+pub open spec fn more_production(cs: Seq<Energy>, cs2: Seq<Energy>, n: int) -> bool {
+    &&& sel_same(cs, cs2)
+    &&& (forall|i: int| 0 <= i < n ==> #[trigger] acc(cs2, Sel::Epus, i) == acc(cs, Sel::Epus, i))
+    &&& (forall|s: ProdSource, i: int| 0 <= i < n ==> #[trigger] acc(cs2, Sel::Prod(s), i) >= acc(cs, Sel::Prod(s), i))
+}
+/// C14 (grid delivery) for one carrier: more production at any steps, everything else equal, never increases the energy delivered by
+/// the grid - at any step and over the year, with or without load matching
+pub proof fn thm_c14_grid_carrier(a: Run, b: Run, lm: bool)
+    requires run_ok(a, lm), run_ok(b, lm), run_n(a) == run_n(b), more_production(a.cs, b.cs, run_n(a)),
+             nonneg_list(a.cs), wf_list(a.cs, run_n(a) as nat), same_carrier(a.cs, e_carrier(a.cs[0])),
+             nonneg_list(b.cs), wf_list(b.cs, run_n(b) as nat), same_carrier(b.cs, e_carrier(b.cs[0])),
+    ensures forall|i: int| 0 <= i < run_n(a) ==> rv(#[trigger] b.del.grid_t@[i]) <= rv(a.del.grid_t@[i]) && rv(b.prod.epus_t@[i]) >= rv(a.prod.epus_t@[i]),
+            rv(b.del.grid_an) <= rv(a.del.grid_an),
+{
+    assert forall|i: int| 0 <= i < run_n(a) implies rv(#[trigger] b.del.grid_t@[i]) <= rv(a.del.grid_t@[i]) && rv(b.prod.epus_t@[i]) >= rv(a.prod.epus_t@[i]) by {
+        lemma_epus_is_g(a, lm, i); lemma_epus_is_g(b, lm, i);
+        assert(rv(a.used.epus_t@[i]) == acc(a.cs, Sel::Epus, i) && rv(b.used.epus_t@[i]) == acc(b.cs, Sel::Epus, i));
+        assert(acc(b.cs, Sel::Epus, i) == acc(a.cs, Sel::Epus, i));
+        let m = a.prod.by_src_t@; let m2 = b.prod.by_src_t@;
+        assert forall|s: ProdSource| #[trigger] mv(m2, s, i) >= mv(m, s, i) by {
+            assert(any_sel(b.cs, Sel::Prod(s)) == any_sel(a.cs, Sel::Prod(s)));
+            assert(acc(b.cs, Sel::Prod(s), i) >= acc(a.cs, Sel::Prod(s), i));
+            if m.contains_key(s) { assert(rv(m[s]@[i]) == acc(a.cs, Sel::Prod(s), i)); assert(rv(m2[s]@[i]) == acc(b.cs, Sel::Prod(s), i)); }
+        }
+        assert(rv(a.prod.t@[i]) == all_src_sum(m, i) && rv(b.prod.t@[i]) == all_src_sum(m2, i));
+        assert(mv(m2, ProdSource::EL_INSITU, i) >= mv(m, ProdSource::EL_INSITU, i) && mv(m2, ProdSource::EL_COGEN, i) >= mv(m, ProdSource::EL_COGEN, i)
+            && mv(m2, ProdSource::TERMOSOLAR, i) >= mv(m, ProdSource::TERMOSOLAR, i) && mv(m2, ProdSource::EAMBIENTE, i) >= mv(m, ProdSource::EAMBIENTE, i));
+        lemma_g_mono(lm, rv(a.prod.t@[i]), rv(b.prod.t@[i]), rv(a.used.epus_t@[i]));
+    }
+    lemma_sumf_le(b.del.grid_t@, a.del.grid_t@);
+}
+
+// ------------------------------------------------------------------------------------------------ at the public entry point
+pub proof fn lemma_csum_le(dom: Set<Carrier>, g: spec_fn(Carrier) -> real, g2: spec_fn(Carrier) -> real, l: Seq<Carrier>)
+    requires forall|c: Carrier| dom.contains(c) ==> #[trigger] g2(c) <= g(c),
+    ensures csum(dom, g2, l) <= csum(dom, g, l),
+    decreases l.len(),
+{
+    if l.len() > 0 { lemma_csum_le(dom, g, g2, l.drop_last()); if dom.contains(l.last()) { assert(g2(l.last()) <= g(l.last())); } }
+}
+/// the second list is the first with more on-site electricity production at some steps and everything else equal
+pub open spec fn more_onsite_el(cs: Seq<Energy>, cs2: Seq<Energy>) -> bool {
+    &&& tags_same(cs, cs2)
+    &&& (forall|j: int| 0 <= j < cs.len() ==> e_vals(#[trigger] cs2[j]).len() == e_vals(cs[j]).len())
+    &&& (forall|j: int, i: int| 0 <= j < cs.len() && 0 <= i < e_vals(cs[j]).len() ==>
+            (if cs[j] is Prod && cs[j]->Prod_0.source == ProdSource::EL_INSITU { rv(#[trigger] e_vals(cs2[j])[i]) >= rv(e_vals(cs[j])[i]) } else { rv(e_vals(cs2[j])[i]) == rv(e_vals(cs[j])[i]) }))
+}
+pub proof fn lemma_more_onsite_acc(cs: Seq<Energy>, cs2: Seq<Energy>, k: Sel, i: int, n: nat)
+    requires more_onsite_el(cs, cs2), wf_list(cs, n), 0 <= i < n,
+    ensures acc(cs2, k, i) >= acc(cs, k, i), any_sel(cs2, k) == any_sel(cs, k),
+            (k != Sel::Prod(ProdSource::EL_INSITU)) ==> acc(cs2, k, i) == acc(cs, k, i),
+    decreases cs.len(),
+{
+    if cs.len() > 0 {
+        let a = cs.drop_last(); let b = cs2.drop_last(); let m = cs.len() - 1;
+        assert forall|j: int| 0 <= j < a.len() implies same_tags(#[trigger] a[j], b[j]) by { assert(a[j] == cs[j] && b[j] == cs2[j]); }
+        assert forall|j: int| 0 <= j < a.len() implies e_vals(#[trigger] b[j]).len() == e_vals(a[j]).len() by { assert(a[j] == cs[j] && b[j] == cs2[j]); }
+        assert forall|j: int| 0 <= j < a.len() implies e_vals(#[trigger] a[j]).len() == n by { assert(a[j] == cs[j]); }
+        assert forall|j: int, ii: int| 0 <= j < a.len() && 0 <= ii < e_vals(a[j]).len() implies
+            (if a[j] is Prod && a[j]->Prod_0.source == ProdSource::EL_INSITU { rv(#[trigger] e_vals(b[j])[ii]) >= rv(e_vals(a[j])[ii]) } else { rv(e_vals(b[j])[ii]) == rv(e_vals(a[j])[ii]) }) by {
+            assert(a[j] == cs[j] && b[j] == cs2[j]);
+        }
+        lemma_more_onsite_acc(a, b, k, i, n);
+        assert(same_tags(cs[m], cs2[m]));
+        lemma_same_tags_sel(cs[m], cs2[m], k);
+        assert(e_vals(cs[m]).len() == n);
+        let x = rv(e_vals(cs[m])[i]); let y = rv(e_vals(cs2[m])[i]);
+        assert(if cs[m] is Prod && cs[m]->Prod_0.source == ProdSource::EL_INSITU { y >= x } else { y == x });
+    }
+}
+pub proof fn lemma_more_onsite_filter(cs: Seq<Energy>, cs2: Seq<Energy>, c: Carrier)
+    requires more_onsite_el(cs, cs2),
+    ensures more_onsite_el(filter_carrier(cs, c), filter_carrier(cs2, c)),
+    decreases cs.len(),
+{
+    if cs.len() > 0 {
+        let a = cs.drop_last(); let b = cs2.drop_last(); let m = cs.len() - 1;
+        assert forall|j: int| 0 <= j < a.len() implies same_tags(#[trigger] a[j], b[j]) by { assert(a[j] == cs[j] && b[j] == cs2[j]); }
+        assert forall|j: int| 0 <= j < a.len() implies e_vals(#[trigger] b[j]).len() == e_vals(a[j]).len() by { assert(a[j] == cs[j] && b[j] == cs2[j]); }
+        assert forall|j: int, ii: int| 0 <= j < a.len() && 0 <= ii < e_vals(a[j]).len() implies
+            (if a[j] is Prod && a[j]->Prod_0.source == ProdSource::EL_INSITU { rv(#[trigger] e_vals(b[j])[ii]) >= rv(e_vals(a[j])[ii]) } else { rv(e_vals(b[j])[ii]) == rv(e_vals(a[j])[ii]) }) by {
+            assert(a[j] == cs[j] && b[j] == cs2[j]);
+        }
+        lemma_more_onsite_filter(a, b, c);
+        assert(same_tags(cs[m], cs2[m]));
+        lemma_same_tags_sel(cs[m], cs2[m], Sel::Epus);
+        let fa = filter_carrier(a, c); let fb = filter_carrier(b, c);
+        if e_has_carrier(cs.last(), c) {
+            assert(e_has_carrier(cs2.last(), c));
+            let ga = fa.push(cs.last()); let gb = fb.push(cs2.last());
+            assert forall|j: int| 0 <= j < ga.len() implies same_tags(#[trigger] ga[j], gb[j]) by { if j < fa.len() { assert(ga[j] == fa[j] && gb[j] == fb[j]); } }
+            assert forall|j: int| 0 <= j < ga.len() implies e_vals(#[trigger] gb[j]).len() == e_vals(ga[j]).len() by { if j < fa.len() { assert(ga[j] == fa[j] && gb[j] == fb[j]); } else { assert(ga[j] == cs[m] && gb[j] == cs2[m]); } }
+            assert forall|j: int, ii: int| 0 <= j < ga.len() && 0 <= ii < e_vals(ga[j]).len() implies
+                (if ga[j] is Prod && ga[j]->Prod_0.source == ProdSource::EL_INSITU { rv(#[trigger] e_vals(gb[j])[ii]) >= rv(e_vals(ga[j])[ii]) } else { rv(e_vals(gb[j])[ii]) == rv(e_vals(ga[j])[ii]) }) by {
+                if j < fa.len() { assert(ga[j] == fa[j] && gb[j] == fb[j]); } else { assert(ga[j] == cs[m] && gb[j] == cs2[m]); }
+            }
+        } else { assert(!e_has_carrier(cs2.last(), c)); }
+    }
+}
+/// C14 (grid delivery) at the public entry point: the same building with more on-site electricity production at any steps: the energy
+/// delivered by the grid does not increase - for any carrier at any step, over the year, and for the whole building
+pub proof fn thm_c14_grid(comps: Components, comps2: Components, w: Seq<Factor>, w2: Seq<Factor>, k_exp: f32, area: f32, lm: bool, r: Result<EnergyPerformance>, r2: Result<EnergyPerformance>)
+    requires comps_wf(comps.data@), comps_wf(comps2.data@), nonneg_list(comps.data@), nonneg_list(comps2.data@), more_onsite_el(comps.data@, comps2.data@),
+             ep_post(comps, w, k_exp, area, lm, r), ep_post(comps2, w2, k_exp, area, lm, r2), r is Ok, r2 is Ok,
+    ensures r2->Ok_0.balance_cr@.dom() =~= r->Ok_0.balance_cr@.dom(),
+            forall|c: Carrier| r->Ok_0.balance_cr@.contains_key(c) ==> rv((#[trigger] r2->Ok_0.balance_cr@[c]).del.grid_an) <= rv(r->Ok_0.balance_cr@[c].del.grid_an),
+            rv(r2->Ok_0.balance.del.grid) <= rv(r->Ok_0.balance.del.grid),
+{
+    let x = r->Ok_0; let y = r2->Ok_0;
+    let cs = comps.data@; let cs2 = comps2.data@;
+    let bcr = x.balance_cr@; let bcr2 = y.balance_cr@;
+    let n = nsteps(cs);
+    assert(nsteps(cs2) == n) by { if cs.len() > 0 { assert(e_vals(cs2[0]).len() == e_vals(cs[0]).len()); } }
+    assert forall|c: Carrier| bcr.contains_key(c) == bcr2.contains_key(c) by { lemma_avail_tags(cs, cs2, c); }
+    assert(bcr2.dom() =~= bcr.dom());
+    assert forall|c: Carrier| bcr.contains_key(c) implies rv((#[trigger] bcr2[c]).del.grid_an) <= rv(bcr[c].del.grid_an) by {
+        reveal(bfc_post);
+        let bx = bcr[c]; let by = bcr2[c];
+        assert(bcr2.contains_key(c));
+        let fa = filter_carrier(cs, c); let fb = filter_carrier(cs2, c);
+        let a = Run { cs: fa, used: bx.used, prod: bx.prod, fm: bx.f_match@, exp: bx.exp, del: bx.del };
+        let b = Run { cs: fb, used: by.used, prod: by.prod, fm: by.f_match@, exp: by.exp, del: by.del };
+        lemma_filter_carrier(cs, c, n); lemma_filter_carrier(cs2, c, n);
+        lemma_nonneg_filter(cs, c); lemma_nonneg_filter(cs2, c);
+        lemma_more_onsite_filter(cs, cs2, c);
+        assert(e_has_carrier(fa[0], c) && e_has_carrier(fb[0], c));
+        assert(run_n(a) == n && run_n(b) == n) by { assert(e_vals(fa[0]).len() == n && e_vals(fb[0]).len() == n); }
+        assert forall|k: Sel| #[trigger] any_sel(fb, k) == any_sel(fa, k) by { lemma_any_sel_tags(fa, fb, k); }
+        assert forall|i: int| 0 <= i < n implies #[trigger] acc(fb, Sel::Epus, i) == acc(fa, Sel::Epus, i) by { lemma_more_onsite_acc(fa, fb, Sel::Epus, i, n); }
+        assert forall|s: ProdSource, i: int| 0 <= i < n implies #[trigger] acc(fb, Sel::Prod(s), i) >= acc(fa, Sel::Prod(s), i) by { lemma_more_onsite_acc(fa, fb, Sel::Prod(s), i, n); }
+        thm_c14_grid_carrier(a, b, lm);
+    }
+    // the whole building: both totals are sums over the carriers
+    let (ord, hist) = choose|ord: Seq<Carrier>, hist: Seq<Balance>| #[trigger] bal_chain(bcr, ord, hist) && bal_initial(hist[0], comps) && hist.last() == x.balance;
+    let (ord2, hist2) = choose|ord2: Seq<Carrier>, hist2: Seq<Balance>| #[trigger] bal_chain(bcr2, ord2, hist2) && bal_initial(hist2[0], comps2) && hist2.last() == y.balance;
+    lemma_chain_scalars(bcr, ord, hist); lemma_chain_scalars(bcr2, ord2, hist2);
+    let f = |q: BalanceCarrier| rv(q.del.grid_an);
+    lemma_field_sum(bcr, ord, hist, |q: Balance| rv(q.del.grid), f);
+    lemma_field_sum(bcr2, ord2, hist2, |q: Balance| rv(q.del.grid), f);
+    assert forall|c: Carrier| bcr.dom().contains(c) implies #[trigger] gsel(bcr2, f)(c) <= gsel(bcr, f)(c) by { assert(rv(bcr2[c].del.grid_an) <= rv(bcr[c].del.grid_an)); }
+    lemma_csum_le(bcr.dom(), gsel(bcr, f), gsel(bcr2, f), carriers12());
+}
